@@ -135,13 +135,35 @@ def run(chk, repo):
     chk.rule("C06.a0", "when a[0] is a Stream: inv_gain = 1/a0; numerator * inv_gain over ((denominator - a0) * "
                        "inv_gain.copy() + 1) is the same rational function; inv_gain is used twice with one copy "
                        "taken first; seq, memory and zero are forwarded")
-    arm = [s for s in docstring_free(call.body) if isinstance(s, ast.If)
-           and unparse(s.test) == "isinstance(self.denpoly[0], Stream)"]
-    chk.require(len(arm) == 1, "variable-gain arm 'if isinstance(self.denpoly[0], Stream)' not found")
+    # a local that holds a[0] itself when the arm is reached (bound to self.denpoly[0] by a top-level statement before
+    # the test, not written again in between)
+    a0_names = set()
+    arm = []
+    top_ = docstring_free(call.body)
+    for i_, s_ in enumerate(top_):
+        if not (isinstance(s_, ast.If) and isinstance(s_.test, ast.Call) and unparse(s_.test.func) == "isinstance"
+                and len(s_.test.args) == 2 and unparse(s_.test.args[1]) == "Stream"):
+            continue
+        subj = s_.test.args[0]
+        if unparse(subj) == "self.denpoly[0]":
+            arm.append(s_)
+        elif isinstance(subj, ast.Name):
+            last = None
+            for p_ in top_[:i_]:
+                if any(isinstance(n_, ast.Name) and n_.id == subj.id and isinstance(n_.ctx, ast.Store) for n_ in ast.walk(p_)):
+                    last = p_
+            if isinstance(last, ast.Assign) and len(last.targets) == 1 and isinstance(last.targets[0], ast.Name) \
+                    and unparse(last.value) == "self.denpoly[0]" and not any(
+                        isinstance(n_, ast.Name) and n_.id == subj.id and isinstance(n_.ctx, ast.Store) for n_ in ast.walk(s_)):
+                arm.append(s_)
+                a0_names.add(subj.id)
+    chk.require(len(arm) == 1, "variable-gain arm 'if isinstance(self.denpoly[0], Stream)' not found (%d candidates, a0 held by %s)" % (len(arm), sorted(a0_names)))
     arm = arm[0]
     a0, rest, N = RF.sym("a0"), RF.sym("Drest"), RF.sym("N")
     polys = {}          # local name -> [c0, rest, c0 is the literal 1]
     env = {}            # scalar locals (gain streams) in normal form
+    for n_ in a0_names:
+        env[n_] = a0
     zfs = {}            # local name -> (num, den poly name or tuple)
     ret = None
 
@@ -175,12 +197,21 @@ def run(chk, repo):
                 and unparse(e.func.value) in polys:
             return list(polys[unparse(e.func.value)])
         # Poly(OrderedDict((delay, F(delay, coeff)) for delay, coeff in P.terms()), zero=..)
-        if isinstance(e, ast.Call) and base_name(canon(fmod, e.func)) == "Poly" and e.args:
-            inner = e.args[0]
+        # (the mapping itself is accepted where a polynomial is: ZFilter / Poly build one from it)
+        if (isinstance(e, ast.Call) and base_name(canon(fmod, e.func)) == "Poly" and e.args) or isinstance(e, ast.DictComp) \
+                or (isinstance(e, ast.Call) and unparse(e.func) in ("OrderedDict", "dict") and len(e.args) == 1):
+            inner = e.args[0] if isinstance(e, ast.Call) and base_name(canon(fmod, e.func)) == "Poly" else e
             if isinstance(inner, ast.Call) and unparse(inner.func) in ("OrderedDict", "dict") and inner.args:
                 inner = inner.args[0]
+            no_zero = False
             if isinstance(inner, (ast.GeneratorExp, ast.ListComp, ast.DictComp)) and len(inner.generators) == 1 \
-                    and not inner.generators[0].ifs:
+                    and len(inner.generators[0].ifs) == 1 and isinstance(inner.generators[0].target, ast.Tuple) \
+                    and len(inner.generators[0].target.elts) == 2:
+                # ... for delay, coeff in P.terms() if delay != 0: the a[0] term is left out
+                k_ = unparse(inner.generators[0].target.elts[0])
+                no_zero = unparse(inner.generators[0].ifs[0]) in ("%s != 0" % k_, "0 != %s" % k_, k_, "%s > 0" % k_)
+            if isinstance(inner, (ast.GeneratorExp, ast.ListComp, ast.DictComp)) and len(inner.generators) == 1 \
+                    and (not inner.generators[0].ifs or no_zero):
                 g = inner.generators[0]
                 src = g.iter
                 if isinstance(src, ast.Call) and isinstance(src.func, ast.Attribute) and src.func.attr == "terms":
@@ -221,7 +252,7 @@ def run(chk, repo):
                             else:
                                 env[vname] = saved
                         return val, (isinstance(x, ast.Constant) and x.value == 1)
-                    c0v, lit = at(True, base[0])
+                    c0v, lit = (RF.const(0), False) if no_zero else at(True, base[0])
                     restv, _ = at(False, base[1])
                     return [c0v, restv, lit]
         return None
@@ -288,10 +319,20 @@ def run(chk, repo):
                 # a use inside the element of a comprehension happens once per term
                 for comp in [c for c in ast.walk(val) if isinstance(c, (ast.GeneratorExp, ast.ListComp, ast.SetComp, ast.DictComp))]:
                     parts = [getattr(comp, f_) for f_ in ("elt", "key", "value") if hasattr(comp, f_)]
+                    # built on the spot (a list / dict display, or a generator handed straight to a constructor): a
+                    # .copy() per term is a tee per term, taken where the statement stands
+                    par_ = getattr(comp, "_parent", None)
+                    eager = not isinstance(comp, ast.GeneratorExp) or (
+                        isinstance(par_, ast.Call) and comp in par_.args and unparse(par_.func) in (
+                            "OrderedDict", "dict", "list", "tuple", "Poly", "sorted"))
                     for part in parts:
                         for n in ast.walk(part):
                             if isinstance(n, ast.Name) and n.id == g and isinstance(n.ctx, ast.Load):
-                                many.append(n)
+                                p1 = getattr(n, "_parent", None)
+                                copied_ = isinstance(p1, ast.Attribute) and p1.attr == "copy" and isinstance(
+                                    getattr(p1, "_parent", None), ast.Call) and p1._parent.func is p1
+                                if not (copied_ and eager):
+                                    many.append(n)
         bare = [u for u in uses if not u.copied]
         pos = lambda u: (u.node.lineno, u.node.col_offset)
         ok = len(bare) <= 1 and all(pos(u) < pos(bare[0]) for u in uses if u.copied) if bare else True
